@@ -61,6 +61,10 @@ pub fn lists_and_ss() -> Vec<(Unifiable, SS)> {
     // variable bound to a list
     v.push((var(1, "$L"), mk(&[(1, mk_list(&[atom("a"), atom("b")], None))])));
     v.push((var(3, "$V"), mk(&[(3, SInteger(1))])));
+    // variable bound to a list whose last element is itself a list / the empty list; variable bound to the empty list
+    v.push((var(5, "$M"), mk(&[(5, mk_list(&[atom("a"), mk_list(&[atom("b"), atom("c")], None)], None))])));
+    v.push((var(5, "$M"), mk(&[(5, mk_list(&[atom("a"), empty()], None))])));
+    v.push((var(6, "$E"), mk(&[(6, empty())])));
     v
 }
 
